@@ -1,6 +1,658 @@
-//! C19 -- monitor (to be written)
-use crate::fw::ctx;
+//! C19 -- workload generators are reproducible and deliver the instances they promise.
+//!
+//! Events: calls of the REAL seeded builders in `quizx::generate` (`Circuit::random`,
+//! `Circuit::random_hidden_shift`, `Circuit::random_pauli_gadget`) and
+//! `quizx::random_graph::EquatorialStabilizerStateBuilder` with generated parameters and
+//! seeds. Oracles:
+//! * reproducibility: the same (seed, parameters) built by a fresh builder twice, by a
+//!   re-seeded builder, and on another thread gives `==` objects;
+//! * parameter respect: own inspection of the gate list (through `from_quizx` and the raw
+//!   `Gate` fields);
+//! * hidden shift: exact state vector U|0..0> from the gate-matrix simulator O3 (all
+//!   qubits declared ancillae, so only one column is simulated; 2^n amplitudes in
+//!   Z[omega][1/2]) -- amplitude at the shift string has modulus exactly 1 and every
+//!   other amplitude is exactly 0;
+//! * stabiliser state: sum |E(g)|^2 == 1 exactly with the independent diagram evaluator O2.
+//!
+//! Readings fixed here:
+//! * "<= depth gates": `Circuit::random` may emit fewer than `depth` gates when the
+//!   probabilities sum to less than one; equality is recorded, not demanded.
+//! * Pauli gadget phases: "multiple of pi/denominator" = phase*denominator is an integer
+//!   (zero would be accepted); "non-Clifford" = not a multiple of pi/2.
+//! * Inadmissible parameters with a documented panic (hidden shift with odd or < 6
+//!   qubits; gadget weight > qubits) are exercised and counted, never flagged.
+//! * A 1-qubit `Circuit::random` request with no two-qubit gate probability is treated as
+//!   admissible (nothing in the builder says otherwise).
+
+use crate::fw::{ctx, guarded, par_cases, Caught};
+use crate::gen::circuit::{circ_json, from_quizx};
+use crate::gen::prng::{hash_bytes, Rng};
+use crate::oracle::eval::EvalError;
+use crate::oracle::ring::{Num, R};
+use crate::oracle::sim::{tensor_exact, Circ, G};
+use crate::snap::{eval_graph, snap, snap_json, Tens};
+use quizx::circuit::Circuit;
+use quizx::gate::GType;
+use quizx::graph::GraphLike;
+use quizx::random_graph::EquatorialStabilizerStateBuilder;
+use serde_json::{json, Value};
+
+fn on_other_thread<T: Send + 'static>(f: impl FnOnce() -> T + Send + 'static) -> Result<T, String> {
+    std::thread::Builder::new().stack_size(16 << 20).spawn(f).map_err(|e| e.to_string())?.join().map_err(|_| "panic on the other thread".to_string())
+}
+
+fn qasm(c: &Circuit) -> String {
+    // gate list incl. pp gates and phases (Display drops pp phases, so use Debug of the gates)
+    format!("qubits={} gates={:?}", c.num_qubits(), c.gates)
+}
+
+fn report_panic(site: &str, cond: &str, e: &Caught, family: &'static str, index: u64, params: &Value) {
+    let c = ctx();
+    match e {
+        Caught::Oracle(m) => c.inconclusive("oracle-error", json!({"site": site, "msg": m, "params": params})),
+        other => c.violation(&format!("{site}|panic|{cond}"), family, index, json!({"what": "panic", "panic": other.text(), "params": params})),
+    }
+}
+
+/// every gate: qubits distinct and in range
+fn args_ok(c: &Circuit) -> Option<String> {
+    for g in c.gates.iter() {
+        for (i, &q) in g.qs.iter().enumerate() {
+            if q >= c.num_qubits() {
+                return Some(format!("qubit {q} out of range in {g:?}"));
+            }
+            if g.qs[..i].contains(&q) {
+                return Some(format!("repeated qubit {q} in {g:?}"));
+            }
+        }
+    }
+    None
+}
+
+// --------------------------------------------------------------------------------------
+// Circuit::random
+// --------------------------------------------------------------------------------------
+
+#[derive(Clone, Debug)]
+struct RcParams {
+    seed: u64,
+    qubits: usize,
+    depth: usize,
+    /// (p_cnot, p_cz, p_h, p_s, p_t)
+    p: [f32; 5],
+    /// how the probabilities were set: 0 explicit setters, 1 uniform(), 2 clifford_t(p_t), 3 p_cz + p_t + with_cliffords()
+    mode: u8,
+}
+
+fn rc_build(p: &RcParams) -> Circuit {
+    let mut b = Circuit::random();
+    b.seed(p.seed).qubits(p.qubits).depth(p.depth);
+    match p.mode {
+        1 => {
+            b.uniform();
+        }
+        2 => {
+            b.clifford_t(p.p[4]);
+        }
+        3 => {
+            b.p_cz(p.p[1]).p_t(p.p[4]).with_cliffords();
+        }
+        _ => {
+            b.p_cnot(p.p[0]).p_cz(p.p[1]).p_h(p.p[2]).p_s(p.p[3]).p_t(p.p[4]);
+        }
+    }
+    b.build()
+}
+
+/// probabilities the builder ends up with, read back from its public fields
+fn rc_effective(p: &RcParams) -> [f32; 5] {
+    let mut b = Circuit::random();
+    b.qubits(p.qubits).depth(p.depth);
+    match p.mode {
+        1 => {
+            b.uniform();
+        }
+        2 => {
+            b.clifford_t(p.p[4]);
+        }
+        3 => {
+            b.p_cz(p.p[1]).p_t(p.p[4]).with_cliffords();
+        }
+        _ => {
+            b.p_cnot(p.p[0]).p_cz(p.p[1]).p_h(p.p[2]).p_s(p.p[3]).p_t(p.p[4]);
+        }
+    }
+    [b.p_cnot, b.p_cz, b.p_h, b.p_s, b.p_t]
+}
+
+fn gen_rc_params(r: &mut Rng, one_qubit: bool) -> RcParams {
+    let qubits = if one_qubit { 1 } else { 2 + r.below(9) };
+    let depth = if r.chance(0.05) { 0 } else { r.below(81) };
+    let mode = if one_qubit { 0 } else { r.below(4) as u8 };
+    let mut p = [0f32; 5];
+    match mode {
+        0 => {
+            // random subset of kinds with non-zero probability; total <= 1 or (sometimes) < 1
+            let total = if r.chance(0.3) { 0.3 + 0.6 * r.f64() } else { 1.0 };
+            let mut w = [0f64; 5];
+            let mut any = false;
+            for (k, wk) in w.iter_mut().enumerate() {
+                if one_qubit && k < 2 {
+                    continue;
+                }
+                if r.chance(0.6) {
+                    *wk = 0.1 + r.f64();
+                    any = true;
+                }
+            }
+            if !any {
+                w[2 + r.below(3)] = 1.0;
+            }
+            let s: f64 = w.iter().sum();
+            for k in 0..5 {
+                p[k] = (w[k] / s * total) as f32;
+            }
+        }
+        2 => p[4] = (r.f64() * 0.6) as f32,
+        3 => {
+            p[1] = (r.f64() * 0.4) as f32;
+            p[4] = (r.f64() * 0.4) as f32;
+        }
+        _ => {}
+    }
+    RcParams { seed: r.next_u64(), qubits, depth, p, mode }
+}
+
+fn check_random_circuit(family: &'static str, index: u64, r: &mut Rng, one_qubit: bool) {
+    let c = ctx();
+    let p = gen_rc_params(r, one_qubit);
+    let params = json!({"seed": p.seed, "qubits": p.qubits, "depth": p.depth, "p_cnot,p_cz,p_h,p_s,p_t": p.p, "mode": p.mode});
+    c.count(&format!("random-circuit:mode{}", p.mode), 1);
+    let pp = p.clone();
+    let circ = match guarded(move || rc_build(&pp)) {
+        Ok(x) => x,
+        Err(e) => {
+            let cond = if p.qubits == 1 { "qubits=1-and-no-two-qubit-gate-probability" } else { "admissible-parameters" };
+            report_panic("Circuit::random.build", cond, &e, family, index, &params);
+            c.case(family, None);
+            return;
+        }
+    };
+    // reproducibility
+    let again = rc_build(&p);
+    let p2 = p.clone();
+    let other = on_other_thread(move || rc_build(&p2));
+    let reseeded = {
+        let mut b = Circuit::random();
+        b.seed(p.seed ^ 0x55).qubits(p.qubits).depth(p.depth);
+        let e = rc_effective(&p);
+        b.p_cnot(e[0]).p_cz(e[1]).p_h(e[2]).p_s(e[3]).p_t(e[4]);
+        let _ = b.build();
+        b.seed(p.seed);
+        b.build()
+    };
+    if again != circ || other.as_ref().ok() != Some(&circ) || reseeded != circ {
+        c.violation(
+            "Circuit::random.build|not-reproducible",
+            family,
+            index,
+            json!({"params": params, "first": qasm(&circ), "second": qasm(&again), "other_thread": other.map(|x| qasm(&x)), "reseeded_builder": qasm(&reseeded)}),
+        );
+    }
+    // parameters
+    let eff = rc_effective(&p);
+    if circ.num_qubits() != p.qubits {
+        c.violation("Circuit::random.build|qubit-count", family, index, json!({"params": params, "observed": circ.num_qubits()}));
+    }
+    if circ.num_gates() > p.depth {
+        c.violation("Circuit::random.build|more-gates-than-depth", family, index, json!({"params": params, "observed": circ.num_gates()}));
+    }
+    let sum: f32 = eff.iter().sum();
+    if sum >= 1.0 {
+        c.count(if circ.num_gates() == p.depth { "random-circuit:full-probability:gates==depth" } else { "random-circuit:full-probability:gates<depth" }, 1);
+    } else {
+        c.count(if circ.num_gates() == p.depth { "random-circuit:partial-probability:gates==depth" } else { "random-circuit:partial-probability:gates<depth" }, 1);
+    }
+    for g in circ.gates.iter() {
+        let (k, arity) = match g.t {
+            GType::CNOT => (0, 2),
+            GType::CZ => (1, 2),
+            GType::HAD => (2, 1),
+            GType::S => (3, 1),
+            GType::T => (4, 1),
+            other => {
+                c.violation(&format!("Circuit::random.build|unexpected-gate-kind|{}", other.qasm_name()), family, index, json!({"params": params, "gate": format!("{g:?}")}));
+                continue;
+            }
+        };
+        c.count(&format!("random-circuit:gate:{}", g.t.qasm_name()), 1);
+        if eff[k] <= 0.0 {
+            c.violation(
+                &format!("Circuit::random.build|gate-kind-with-zero-probability|{}", g.t.qasm_name()),
+                family,
+                index,
+                json!({"params": params, "effective_probabilities": eff, "gate": format!("{g:?}"), "circuit": qasm(&circ)}),
+            );
+        }
+        if g.qs.len() != arity {
+            c.violation(&format!("Circuit::random.build|arity|{}", g.t.qasm_name()), family, index, json!({"params": params, "gate": format!("{g:?}")}));
+        }
+    }
+    if let Some(why) = args_ok(&circ) {
+        c.violation("Circuit::random.build|qubit-arguments-not-distinct-in-range", family, index, json!({"params": params, "why": why, "circuit": qasm(&circ)}));
+    }
+    let nontrivial = circ.num_gates() >= 3;
+    c.case(family, if nontrivial { Some(hash_bytes(qasm(&circ).as_bytes())) } else { None });
+    c.sample_n(2, || json!({"family": family, "index": index, "params": params, "gates": circ.num_gates()}));
+}
+
+// --------------------------------------------------------------------------------------
+// hidden shift
+// --------------------------------------------------------------------------------------
+
+fn hs_build(seed: u64, n: usize, depth: usize, n_ccz: usize) -> (Circuit, Vec<u8>) {
+    Circuit::random_hidden_shift().seed(seed).qubits(n).clifford_depth(depth).n_ccz(n_ccz).build()
+}
+
+fn check_hidden_shift(family: &'static str, index: u64, r: &mut Rng, sizes: &[usize]) {
+    let c = ctx();
+    let n = *r.pick(sizes);
+    let depth = if r.chance(0.05) { 0 } else { r.below(41) };
+    let n_ccz = r.below(5);
+    let seed = r.next_u64();
+    let params = json!({"seed": seed, "qubits": n, "clifford_depth": depth, "n_ccz": n_ccz});
+    c.count(&format!("hidden-shift:qubits={n}"), 1);
+    let (circ, shift) = match guarded(move || hs_build(seed, n, depth, n_ccz)) {
+        Ok(x) => x,
+        Err(e) => {
+            report_panic("random_hidden_shift.build", "admissible-parameters", &e, family, index, &params);
+            c.case(family, None);
+            return;
+        }
+    };
+    let again = hs_build(seed, n, depth, n_ccz);
+    let other = on_other_thread(move || hs_build(seed, n, depth, n_ccz));
+    if again != (circ.clone(), shift.clone()) || other.as_ref().ok() != Some(&(circ.clone(), shift.clone())) {
+        c.violation("random_hidden_shift.build|not-reproducible", family, index, json!({"params": params, "first": qasm(&circ), "second": qasm(&again.0), "shift1": shift, "shift2": again.1}));
+    }
+    if circ.num_qubits() != n || shift.len() != n || shift.iter().any(|&b| b > 1) {
+        c.violation("random_hidden_shift.build|shape", family, index, json!({"params": params, "qubits": circ.num_qubits(), "shift": shift}));
+        c.case(family, None);
+        return;
+    }
+    if let Some(why) = args_ok(&circ) {
+        c.violation("random_hidden_shift.build|qubit-arguments-not-distinct-in-range", family, index, json!({"params": params, "why": why, "circuit": qasm(&circ)}));
+        c.case(family, None);
+        return;
+    }
+    let nccz = circ.num_gates_of_type(GType::CCZ);
+    if nccz != 2 * n_ccz {
+        c.violation("random_hidden_shift.build|ccz-count", family, index, json!({"params": params, "expected": 2 * n_ccz, "observed": nccz}));
+    }
+    c.count("hidden-shift:ccz-gates", nccz as u64);
+    c.maximum("hidden-shift:max-gates", circ.num_gates() as u64);
+    // the promise: measuring U|0..0> gives `shift` with probability one
+    let hc = match from_quizx(&circ) {
+        Ok(h) => h,
+        Err(m) => {
+            c.violation("random_hidden_shift.build|unsupported-gate", family, index, json!({"params": params, "why": m}));
+            c.case(family, None);
+            return;
+        }
+    };
+    let mut gates: Vec<G> = (0..n).map(G::InitAnc).collect();
+    gates.extend(hc.gates.iter().cloned());
+    let col = Circ { n, gates };
+    let (amps, ni, no) = tensor_exact(&col);
+    assert_eq!((ni, no, amps.len()), (0, n, 1usize << n));
+    let mut idx = 0usize;
+    for (q, &b) in shift.iter().enumerate() {
+        if b == 1 {
+            idx |= 1usize << (n - 1 - q);
+        }
+    }
+    let p_shift = amps[idx].norm_sqr();
+    let others_zero = amps.iter().enumerate().all(|(i, a)| i == idx || a.is_zero());
+    if p_shift != R::one() || !others_zero {
+        let support: Vec<String> = amps.iter().enumerate().filter(|(_, a)| !a.is_zero()).take(8).map(|(i, a)| format!("{i:0w$b}: {a}", w = n)).collect();
+        c.violation(
+            "random_hidden_shift.build|shift-is-not-the-deterministic-outcome",
+            family,
+            index,
+            json!({"params": params, "shift": shift, "expected": "|<shift|U|0>|^2 == 1", "observed_probability": format!("{p_shift}"),
+                   "support_head": support, "circuit": circ_json(&hc)}),
+        );
+    }
+    let nontrivial = depth > 0 || n_ccz > 0;
+    c.case(family, if nontrivial { Some(hash_bytes(format!("{}{:?}", qasm(&circ), shift).as_bytes())) } else { None });
+    c.sample_n(4, || json!({"family": family, "index": index, "params": params, "shift": shift, "gates": circ.num_gates(), "probability_of_shift": format!("{p_shift}")}));
+}
+
+fn check_hidden_shift_inadmissible(family: &'static str, r: &mut Rng) {
+    let c = ctx();
+    let n = *r.pick(&[0usize, 2, 4, 5, 7, 9]);
+    let seed = r.next_u64();
+    match guarded(move || hs_build(seed, n, 5, 1)) {
+        Err(Caught::Panic { msg, .. }) if msg.contains("even number of qubits >= 6") => c.count("hidden-shift:inadmissible:documented-panic", 1),
+        Err(_) => c.count("hidden-shift:inadmissible:other-panic", 1),
+        Ok(_) => c.count("hidden-shift:inadmissible:returned", 1),
+    }
+    c.case(family, None);
+}
+
+// --------------------------------------------------------------------------------------
+// equatorial stabiliser states
+// --------------------------------------------------------------------------------------
+
+fn stab_build<Gr: GraphLike>(seed: u64, n: usize) -> Gr {
+    EquatorialStabilizerStateBuilder::new().seed(seed).qubits(n).build()
+}
+
+fn check_stab_one<Gr: GraphLike + PartialEq + Send + 'static>(family: &'static str, index: u64, backend: &str, seed: u64, n: usize) -> Option<(Value, Option<Tens>)> {
+    let c = ctx();
+    let params = json!({"seed": seed, "qubits": n, "backend": backend});
+    c.count(&format!("stab-state:{backend}:qubits={n}"), 1);
+    let g: Gr = match guarded(move || stab_build::<Gr>(seed, n)) {
+        Ok(g) => g,
+        Err(e) => {
+            report_panic("EquatorialStabilizerStateBuilder.build", backend, &e, family, index, &params);
+            return None;
+        }
+    };
+    let again: Gr = stab_build(seed, n);
+    let other: Result<Gr, String> = on_other_thread(move || stab_build::<Gr>(seed, n));
+    let s = match snap(&g) {
+        Ok(s) => s,
+        Err(m) => {
+            c.violation("EquatorialStabilizerStateBuilder.build|unsnappable", family, index, json!({"params": params, "why": m}));
+            return None;
+        }
+    };
+    let sj = snap_json(&s);
+    let same2 = again == g && snap(&again).map(|x| snap_json(&x)).ok() == Some(sj.clone());
+    let same3 = matches!(&other, Ok(o) if *o == g);
+    if !same2 || !same3 {
+        c.violation("EquatorialStabilizerStateBuilder.build|not-reproducible", family, index, json!({"params": params, "first": sj}));
+    }
+    if !g.inputs().is_empty() || g.outputs().len() != n {
+        c.violation(
+            "EquatorialStabilizerStateBuilder.build|shape",
+            family,
+            index,
+            json!({"params": params, "inputs": g.inputs().len(), "outputs": g.outputs().len(), "diagram": sj}),
+        );
+        return Some((sj, None));
+    }
+    match eval_graph(&g) {
+        Ok(t) => {
+            match &t {
+                Tens::Exact(v) => {
+                    let mut sum = R::zero();
+                    for a in v {
+                        sum = sum.add(&a.norm_sqr());
+                    }
+                    if sum != R::one() {
+                        c.violation(
+                            "EquatorialStabilizerStateBuilder.build|not-a-unit-vector",
+                            family,
+                            index,
+                            json!({"params": params, "expected_norm_squared": "1", "observed_norm_squared": format!("{sum}"), "diagram": sj}),
+                        );
+                    }
+                    // evidence only: equal moduli (equatorial)
+                    let m0 = v.first().map(|a| a.norm_sqr());
+                    if v.iter().all(|a| Some(a.norm_sqr()) == m0) {
+                        c.count("stab-state:all-amplitudes-equal-modulus", 1);
+                    } else {
+                        c.count("stab-state:amplitudes-of-different-modulus", 1);
+                    }
+                }
+                Tens::Float(v) => {
+                    // the builder only uses multiples of pi/2 and an exact scalar, so this branch is unexpected
+                    let sum: f64 = v.iter().map(|a| a.norm_sqr()).sum();
+                    c.count("stab-state:float-evaluation", 1);
+                    if (sum - 1.0).abs() > 1e-8 {
+                        c.violation(
+                            "EquatorialStabilizerStateBuilder.build|not-a-unit-vector",
+                            family,
+                            index,
+                            json!({"params": params, "expected_norm_squared": 1.0, "observed_norm_squared": sum, "diagram": sj}),
+                        );
+                    }
+                }
+            }
+            Some((sj, Some(t)))
+        }
+        Err(EvalError::TooWide(_)) => {
+            c.skipped();
+            Some((sj, None))
+        }
+        Err(EvalError::IllFormed(m)) => {
+            c.violation("EquatorialStabilizerStateBuilder.build|ill-formed-diagram", family, index, json!({"params": params, "why": m, "diagram": sj}));
+            Some((sj, None))
+        }
+    }
+}
+
+fn check_stab(family: &'static str, index: u64, r: &mut Rng, max_n: usize) {
+    let c = ctx();
+    let n = if r.chance(0.03) { 0 } else { 1 + r.below(max_n) };
+    let seed = r.next_u64();
+    let a = check_stab_one::<quizx::vec_graph::Graph>(family, index, "vec", seed, n);
+    let b = check_stab_one::<quizx::hash_graph::Graph>(family, index, "hash", seed, n);
+    if let (Some((ja, ta)), Some((jb, tb))) = (&a, &b) {
+        if ja == jb {
+            c.count("stab-state:backends-structurally-equal", 1);
+        } else {
+            c.count("stab-state:backends-structurally-different", 1);
+        }
+        if let (Some(ta), Some(tb)) = (ta, tb) {
+            if !ta.same(tb, 1e-8) {
+                c.violation(
+                    "EquatorialStabilizerStateBuilder.build|backends-denote-different-states",
+                    family,
+                    index,
+                    json!({"seed": seed, "qubits": n, "vec": ja, "hash": jb}),
+                );
+            }
+        }
+    }
+    let h = a.as_ref().map(|x| hash_bytes(x.0.to_string().as_bytes()));
+    c.case(family, if n >= 2 { h } else { None });
+    c.evals(1);
+    c.sample_n(6, || json!({"family": family, "index": index, "seed": seed, "qubits": n, "diagram": a.map(|x| x.0)}));
+}
+
+// --------------------------------------------------------------------------------------
+// Pauli gadgets
+// --------------------------------------------------------------------------------------
+
+#[derive(Clone, Debug)]
+struct PgParams {
+    seed: u64,
+    qubits: usize,
+    depth: usize,
+    min_w: usize,
+    max_w: usize,
+    denom: usize,
+    /// use the `weight(w)` setter instead of min/max
+    single_weight: bool,
+}
+
+fn pg_build(p: &PgParams) -> Circuit {
+    let mut b = Circuit::random_pauli_gadget();
+    b.seed(p.seed).qubits(p.qubits).depth(p.depth).phase_denom(p.denom);
+    if p.single_weight {
+        b.weight(p.min_w);
+    } else {
+        b.min_weight(p.min_w).max_weight(p.max_w);
+    }
+    b.build()
+}
+
+fn check_pauli_gadget(family: &'static str, index: u64, r: &mut Rng) {
+    let c = ctx();
+    let qubits = 1 + r.below(9);
+    let depth = if r.chance(0.05) { 0 } else { r.below(13) };
+    let min_w = 1 + r.below(qubits);
+    let single_weight = r.chance(0.25);
+    let max_w = if single_weight { min_w } else { min_w + r.below(qubits - min_w + 1) };
+    let denom = *r.pick(&[1usize, 2, 3, 4, 5, 6, 7, 8, 9, 10, 12, 16, 32]);
+    let p = PgParams { seed: r.next_u64(), qubits, depth, min_w, max_w, denom, single_weight };
+    let params = json!({"seed": p.seed, "qubits": qubits, "depth": depth, "min_weight": min_w, "max_weight": max_w, "phase_denom": denom, "weight_setter": single_weight});
+    c.count(&format!("pauli-gadget:denom={denom}"), 1);
+    let pp = p.clone();
+    let circ = match guarded(move || pg_build(&pp)) {
+        Ok(x) => x,
+        Err(e) => {
+            report_panic("random_pauli_gadget.build", "admissible-parameters", &e, family, index, &params);
+            c.case(family, None);
+            return;
+        }
+    };
+    let again = pg_build(&p);
+    let p2 = p.clone();
+    let other = on_other_thread(move || pg_build(&p2));
+    if again != circ || other.as_ref().ok() != Some(&circ) {
+        c.violation("random_pauli_gadget.build|not-reproducible", family, index, json!({"params": params, "first": qasm(&circ), "second": qasm(&again)}));
+    }
+    let fail = |class: &str, why: String| {
+        c.violation(&format!("random_pauli_gadget.build|{class}"), family, index, json!({"params": params, "why": why, "circuit": qasm(&circ)}));
+    };
+    if circ.num_qubits() != qubits {
+        fail("qubit-count", format!("{} qubits", circ.num_qubits()));
+    }
+    if let Some(why) = args_ok(&circ) {
+        fail("qubit-arguments-not-distinct-in-range", why);
+        c.case(family, None);
+        return;
+    }
+    let hc = match from_quizx(&circ) {
+        Ok(h) => h,
+        Err(m) => {
+            fail("unsupported-gate", m);
+            c.case(family, None);
+            return;
+        }
+    };
+    // parse: ( basis-layer  pp  adjoint-of-basis-layer )^depth
+    let gs = &hc.gates;
+    let mut i = 0usize;
+    let mut gadgets = 0usize;
+    let mut ok = true;
+    'outer: while i < gs.len() {
+        let start = i;
+        while i < gs.len() && !matches!(gs[i], G::Pp(..)) {
+            i += 1;
+        }
+        if i == gs.len() {
+            fail("structure:trailing-gates-without-parity-phase", format!("gates {start}.. have no pp gate"));
+            ok = false;
+            break;
+        }
+        let layer = &gs[start..i];
+        let G::Pp(qs, ph) = &gs[i] else { unreachable!() };
+        // the parity-phase gate
+        if !qs.windows(2).all(|w| w[0] < w[1]) {
+            fail("pp-qubits-not-sorted-distinct", format!("{:?}", gs[i]));
+            ok = false;
+        }
+        if qs.len() < min_w || qs.len() > max_w {
+            fail("weight-out-of-range", format!("{:?} has weight {} not in {min_w}..={max_w}", gs[i], qs.len()));
+            ok = false;
+        }
+        c.count(&format!("pauli-gadget:weight={}", qs.len()), 1);
+        // phase = k / denom: (num/den) * denom integral
+        if (ph.0 as i128 * denom as i128) % (ph.1 as i128) != 0 {
+            fail("phase-not-a-multiple-of-pi/denominator", format!("{:?}", gs[i]));
+            ok = false;
+        }
+        let clifford = 2 % ph.1 == 0;
+        if denom >= 4 && denom % 2 == 0 && clifford {
+            fail("clifford-phase-for-even-denominator>=4", format!("{:?}", gs[i]));
+            ok = false;
+        }
+        c.count(if clifford { "pauli-gadget:clifford-phase" } else { "pauli-gadget:non-clifford-phase" }, 1);
+        // the basis-change layer: H or rx(1/2) on distinct qubits of the support
+        let mut seen: Vec<usize> = vec![];
+        for g in layer {
+            let q = match g {
+                G::H(q) => {
+                    c.count("pauli-gadget:basis:h", 1);
+                    *q
+                }
+                G::Rx(q, (1, 2)) => {
+                    c.count("pauli-gadget:basis:rx(1/2)", 1);
+                    *q
+                }
+                other => {
+                    fail("structure:unexpected-gate-in-basis-layer", format!("{other:?} before {:?}", gs[i]));
+                    ok = false;
+                    break 'outer;
+                }
+            };
+            if seen.contains(&q) || !qs.contains(&q) {
+                fail("structure:basis-layer-qubit-repeated-or-outside-support", format!("{g:?} before {:?}", gs[i]));
+                ok = false;
+            }
+            seen.push(q);
+        }
+        // followed by the adjoint layer
+        let expect: Vec<G> = layer
+            .iter()
+            .rev()
+            .map(|g| match g {
+                G::Rx(q, _) => G::Rx(*q, (-1, 2)),
+                other => other.clone(),
+            })
+            .collect();
+        let end = i + 1 + layer.len();
+        if end > gs.len() || gs[i + 1..end] != expect[..] {
+            fail("structure:basis-layer-not-undone-by-its-adjoint", format!("after {:?} expected {:?}", gs[i], expect));
+            ok = false;
+            break;
+        }
+        gadgets += 1;
+        i = end;
+    }
+    if ok && gadgets != depth {
+        fail("number-of-gadgets-differs-from-depth", format!("{gadgets} gadgets"));
+    }
+    c.count("pauli-gadget:gadgets", gadgets as u64);
+    let _ = circ_json;
+    c.case(family, if depth >= 1 { Some(hash_bytes(qasm(&circ).as_bytes())) } else { None });
+    c.sample_n(8, || json!({"family": family, "index": index, "params": params, "gates": circ.num_gates()}));
+}
+
+fn check_pauli_gadget_inadmissible(family: &'static str, r: &mut Rng) {
+    let c = ctx();
+    let qubits = 1 + r.below(4);
+    let seed = r.next_u64();
+    match guarded(move || Circuit::random_pauli_gadget().seed(seed).qubits(qubits).depth(3).weight(qubits + 1).build()) {
+        Err(Caught::Panic { msg, .. }) if msg.contains("Weight larger than total qubits") => c.count("pauli-gadget:inadmissible:documented-panic", 1),
+        Err(_) => c.count("pauli-gadget:inadmissible:other-panic", 1),
+        Ok(_) => c.count("pauli-gadget:inadmissible:returned", 1),
+    }
+    c.case(family, None);
+}
 
 pub fn run() {
-    ctx().harness_error("C19 monitor not implemented yet");
+    let c = ctx();
+    let t = c.tier;
+    c.set_rule(
+        "cases = one (generator, parameters, seed) triple each, built several times (fresh builder twice, re-seeded builder, other thread) and inspected; non-trivial: random circuit with >= 3 gates, hidden-shift instance with clifford_depth > 0 or n_ccz > 0, stabiliser state on >= 2 qubits, gadget circuit with depth >= 1; distinct = distinct generated objects (64-bit hash of the serialised object)",
+    );
+    c.assume("gate-matrix simulator O3, diagram evaluator O2 and exact ring O1 are correct (self-tested at start)");
+    c.assume("hidden-shift promise is checked on the full exact output state U|0..0> (2^n amplitudes), n in {6,8,10,12}");
+    c.assume("a 1-qubit Circuit::random request without two-qubit gate probability is treated as admissible");
+    let n = t.pick(2000usize, 50_000usize);
+    par_cases("random-circuit", n, |r, i| check_random_circuit("random-circuit", i, r, false));
+    par_cases("random-circuit-one-qubit", t.pick(20, 500), |r, i| check_random_circuit("random-circuit-one-qubit", i, r, true));
+    par_cases("hidden-shift", n, |r, i| check_hidden_shift("hidden-shift", i, r, &[6, 8, 10, 12]));
+    par_cases("hidden-shift-inadmissible", t.pick(12, 100), |r, _| check_hidden_shift_inadmissible("hidden-shift-inadmissible", r));
+    let max_n = 8usize;
+    par_cases("stabiliser-state", n, move |r, i| check_stab("stabiliser-state", i, r, max_n));
+    par_cases("pauli-gadget", n, |r, i| check_pauli_gadget("pauli-gadget", i, r));
+    par_cases("pauli-gadget-inadmissible", t.pick(12, 100), |r, _| check_pauli_gadget_inadmissible("pauli-gadget-inadmissible", r));
+    c.extra("exhaustive", json!(false));
 }
